@@ -36,18 +36,30 @@ SUBJECT_MISSING = chain(kind("configuration"))  # SubjectInfo.CreateSubject: cou
 # ---------------------------------------------------------------------------------------------------------------
 # credentials
 
-def PH(name):
-    """the placeholder of a JWT the harness signs: a string of JWS compact form itself (three base64url parts), so
-    that it has the same structure as the token that replaces it on the implementation side"""
+def PH(name, respell=None):
+    """the placeholder of a JWT the harness signs: itself a canonically spelled JWS compact form (three strictly
+    base64url encoded parts), so that it has the same structure as the token that replaces it on the implementation
+    side. respell: the placeholder of another spelling of the same token — "bits": unused bits of the last character
+    of the signature set, "crlf": a line break inside the payload (the real token is respelled the same way)"""
     head = "J" + name
-    while len(head) % 4 == 1:
+    while len(head) % 4 != 0:
         head += "0"
-    return head + ".pl.hd"
+    if respell == "bits":
+        return head + ".plpl.hB"
+    if respell == "crlf":
+        return head + ".pl\r\npl.hdhd"
+    return head + ".plpl.hdhd"
 
 
 def expand(x):
     """in the sources of the cases JWTs are written @J<name>@"""
-    return json.loads(re.sub(r"@J(\w+?)@", lambda m: PH(m.group(1)), json.dumps(x)))
+    def sub(m):
+        name = m.group(1)
+        for r in ("bits", "crlf"):
+            if name.endswith(r) and name[:-4] in ("ok", "ok2", "nokid"):
+                return json.dumps(PH(name, r))[1:-1]
+        return PH(name)
+    return json.loads(re.sub(r"@J(\w+?)@", sub, json.dumps(x)))
 
 
 JWTS = {
@@ -76,7 +88,12 @@ JWTS = {
     "@Jps@": {"alg": "PS256", "key": "k1", "kid": "", "iss": ISS_GOOD, "sub": "alice", "exp": 3600, "aud": ["api"]},
     "@Jed@": {"alg": "EdDSA", "key": "k2", "kid": "k2", "iss": ISS_GOOD, "sub": "bob", "exp": 3600, "aud": ["api"]},
 }
-JWTS = {PH(k[2:-1]): v for k, v in JWTS.items()}
+# other spellings of tokens that are valid in their canonical spelling (go-jose decodes them to the same octets)
+for _name in ("ok", "ok2", "nokid"):
+    JWTS[f"@J{_name}bits@"] = dict(JWTS[f"@J{_name}@"], respell="bits")
+    JWTS[f"@J{_name}crlf@"] = dict(JWTS[f"@J{_name}@"], respell="crlf")
+JWTS = {PH(k[2:-1], v.get("respell")): v for k, v in JWTS.items()}
+CANONICAL = {ph for ph, v in JWTS.items() if not v.get("respell")}
 
 # what the introspection endpoint knows: token -> answer
 INTRO = {
@@ -398,7 +415,7 @@ def world_for(mechs, reqs):
     for r in reqs:
         cands |= candidates(r)
     cands = sorted(cands)
-    w = {"basic": [], "headerAlg": [[c, JWTS[c].get("alg", "ES256")] for c in cands if c in JWTS],
+    w = {"basic": [], "headerAlg": [[c, JWTS[c].get("alg", "ES256")] for c in cands if c in CANONICAL],
          "jwt": [], "intro": [], "gen": []}
     for c in cands:
         parts = basic_parts(c)
@@ -406,7 +423,7 @@ def world_for(mechs, reqs):
             w["basic"].append([c, parts])
     for m in mechs:
         for c in cands:
-            if m["type"] == "jwt" and c in JWTS:
+            if m["type"] == "jwt" and c in CANONICAL:
                 w["jwt"].append([m["id"], c, jwt_verdict(c, m)])
             elif m["type"] == "oauth2_introspection":
                 w["intro"].append([m["id"], c, intro_verdict(c, m)])
@@ -553,6 +570,8 @@ def credential_for(rng, m):
     if t == "jwt":
         if r < 0.25:
             return PH(rng.choice(["ok", "ok2", "nokid", "nokid2"]))
+        if r < 0.35:
+            return PH(rng.choice(["ok", "ok2", "nokid"]), rng.choice(["bits", "crlf"]))
         if r < 0.8:
             return rng.choice(sorted(JWTS))
         return rng.choice(GARBAGE + sorted(INTRO))
@@ -579,6 +598,8 @@ def decorate(rng, v):
 def place(rng, req, src, value):
     """put the value where the source looks for it (mostly well-formed, sometimes deliberately off)"""
     k = src["k"]
+    if "\r" in value and k in ("header", "cookie"):
+        value = value.replace(".pl\r\npl.hdhd", ".plpl.hB")     # header lines cannot carry line breaks
     if k == "header":
         scheme = src.get("scheme", "")
         r = rng.random()
@@ -749,8 +770,10 @@ def gen_steps(rng, mechs, max_len):
 
 
 def tokens_used(reqs):
+    from urllib.parse import quote
     text = json.dumps(reqs)
-    return [dict(JWTS[ph], ph=ph) for ph in sorted(JWTS) if ph in text]
+    spellings = lambda ph: (json.dumps(ph)[1:-1], json.dumps(json.dumps(ph)[1:-1])[1:-1], quote(ph, safe="-._~"))
+    return [dict(JWTS[ph], ph=ph) for ph in sorted(JWTS) if any(x in text for x in spellings(ph))]
 
 
 def assemble(mechs, steps, reqs, note=None, cache=False):
